@@ -610,6 +610,69 @@ func (c *Ctx) functionCallArgs(rule string, fn *ssa.Function, hcall *ssa.Call) {
 			if vcall != nil {
 				name = core.StaticCalleeName(&vcall.Call)
 			}
+			// the element is worked out by a helper of the package that hands back (value, error): the store is made where
+			// the error was found nil, and the helper's ways out without an error are examined like the stores
+			if hc, idx, isCall := core.CallResult(st.Val); isCall && name == "" || (isCall && !strings.HasPrefix(name, "reflect.")) {
+				if helper := core.StaticBody(&hc.Call); helper != nil && helper.Pkg == fn.Pkg && core.ErrorResultIndex(helper.Signature) >= 0 {
+					hei := core.ErrorResultIndex(helper.Signature)
+					underNil := false
+					for _, cond := range core.CondsAt(b) {
+						if x, neq, isNil := core.NilCmp(cond.V); isNil && neq != cond.True {
+							if ec, ei2, ok := core.CallResult(core.Unwrap(x)); ok && ec == hc && ei2 == hei {
+								underNil = true
+							}
+						}
+					}
+					valid, assignable, why := underNil, underNil, "the store is not made under a nil error of "+helper.Name()
+					sites := 0
+					if underNil {
+						for _, r := range core.ReturnsOf(helper) {
+							if c.M.RetNonNil(r, hei) {
+								continue
+							}
+							sites++
+							rc, _ := r.Val(idx).(*ssa.Call)
+							rname := ""
+							if rc != nil {
+								rname = core.StaticCalleeName(&rc.Call)
+							}
+							switch rname {
+							case "reflect.Zero", "reflect.New":
+							case "reflect.ValueOf":
+								if may, _ := c.maybeNilIface(dt, rc.Call.Args[0], r.Block()); may {
+									valid, why = false, "a way out of "+helper.Name()+" returns reflect.ValueOf of a value that may be nil"
+								}
+								checked := false
+								for _, hb := range helper.Blocks {
+									if assignChecked(hb) && (hb == r.Block() || hb.Dominates(r.Block())) {
+										checked = true
+									}
+								}
+								if !checked {
+									assignable = false
+								}
+							default:
+								valid, assignable, why = false, false, "a way out of "+helper.Name()+" without an error returns a value of unknown construction"
+							}
+						}
+					}
+					if sites == 0 {
+						valid, assignable = false, false
+					}
+					if valid {
+						c.R.Ok(rule, k1, pos, "argument of the reflective call", "the result of "+helper.Name()+", stored where its error was found nil: every way out of it without an error returns reflect.Zero / reflect.New of the parameter type or reflect.ValueOf of a value that is not nil")
+					} else {
+						c.R.Bad(rule, k1, pos, "argument of the reflective call of unknown construction", why)
+					}
+					if assignable {
+						c.R.Ok(rule, k2, pos, "argument of the reflective call", "every way out of "+helper.Name()+" that returns reflect.ValueOf(..) without an error lies behind an AssignableTo test")
+					} else {
+						c.R.Bad(rule, k2, pos, "an argument reaches the reflective call without an assignability test",
+							"reflect's Call panics (Call using X as type Y) when an argument is not assignable to the handler's parameter type; a wrongly typed argument must come back as a call-shape error")
+					}
+					continue
+				}
+			}
 			switch {
 			case name == "reflect.Zero" || name == "reflect.New":
 				c.R.Ok(rule, k1, pos, "argument of the reflective call", name+" yields a valid Value of the given type")
